@@ -95,6 +95,7 @@ Section StepsB9.
       all: try solve [intros r' _; apply ec_ext; cbn; auto; unfold fn; destruct (Nat.eqb_spec r' r) as [->|]; auto].
       all: try solve [vwt t].
       all: try solve [intros r'; cbn; split; auto; split; auto; unfold fn; destruct (Nat.eqb_spec r' r) as [->|]; auto].
+      all: try solve [intros r'; cbn; unfold fn; destruct (Nat.eqb_spec r' r) as [->|]; auto].
   Qed.
 
   Lemma S_truncate g a tr t r :
@@ -211,10 +212,11 @@ Section StepsB9.
       + intros t' r' Hf'. assert (Hf'' : vb_full (bvs a t') = Some r') by (revert Hf'; unfold fn; destruct (Nat.eqb_spec t' t) as [->|]; auto).
         destruct (R6 t' r' Hf'') as (Y1 & Y2). split; [unfold fn; destruct (Nat.eqb_spec t' t) as [->|]; auto|].
         destruct (Nat.eq_dec r' r) as [->|N]; [rewrite fn_same; intros E0; rewrite E0 in Elp; discriminate|rewrite fn_other by exact N; exact Y2].
-    - apply JW_frame with (g := g) (a := a) (rt := retired_tr tr); [exact El| |reflexivity|vwt t|auto|auto| |apply incl_refl|reflexivity|exact W1].
+    - apply JW_frame with (g := g) (a := a) (rt := retired_tr tr) (tr := tr); [exact El| |reflexivity|vwt t|auto|auto| | |apply incl_refl|reflexivity|auto|exact W1].
       + intros r' Hr'. destruct (Nat.eq_dec r' r) as [->|N].
         * unfold ec; cbn [moved rch rw]; rewrite fn_same; now rewrite Hcont.
         * apply ec_ext; cbn [rch rw moved]; auto; rewrite fn_other by exact N; reflexivity.
       + intros r'. cbn [moved rw rch]. split; auto. split; auto. unfold fn. destruct (Nat.eqb_spec r' r) as [->|]; auto. intros E; contradiction.
+      + intros r'. cbn [rch]. unfold fn. destruct (Nat.eqb_spec r' r) as [->|]; auto. intros E0. rewrite E0 in Elp. discriminate.
   Qed.
 End StepsB9.
